@@ -990,6 +990,9 @@ func (x *exec) step(s *State, in ssa.Instruction) bool {
 		x.doGo(s, i)
 	case *ssa.Send:
 		x.chanOp(s, x.val(i.Chan, s), "send", i.Pos())
+		if cht, ok := x.val(i.Chan, s).(*Term); ok {
+			x.setHolds(s, cht, c.True())
+		}
 	case *ssa.Select:
 		x.regs[i] = x.doSelect(s, i)
 	case *ssa.SliceToArrayPointer:
@@ -1205,6 +1208,7 @@ func (x *exec) unop(s *State, i *ssa.UnOp) Value {
 	case token.ARROW:
 		x.chanOp(s, v, "recv", i.Pos())
 		if cht, ok := v.(*Term); ok {
+			x.setHolds(s, cht, c.False())
 			h := e.heapGet(s, "chan#lastrecv", Array(Int, Int))
 			e.heapSet(s, "chan#lastrecv", c.Store(h, c.IntC(0), cht))
 		}
@@ -1593,4 +1597,13 @@ func mentionsNewConst(t *Term, id int, seen map[*Term]bool) bool {
 		}
 	}
 	return false
+}
+
+// setHolds maintains the ghost "this function holds a token of the channel used
+// as a semaphore" (spec: holds_(ch)): a completed send acquires, a completed
+// receive releases. Only the function's own channel operations change it.
+func (x *exec) setHolds(s *State, ch *Term, v *Term) {
+	e := x.e
+	h := e.heapGet(s, "chan#holds", Array(Int, Bool))
+	e.heapSet(s, "chan#holds", e.C.Store(h, ch, v))
 }
